@@ -46,6 +46,23 @@ for L in range(0, @L@):
         if ref_decode(comp) != x: bad.append([x.hex(), 'reference decoder disagrees'])
         area = bytes([58, 99, 58, 0, len(x) >> 8, len(x) & 255, 0, 0]) + bytes(comp) + bytes(4)
         if compress.decompress_code(area)[1] != x: bad.append([x.hex(), 'decompress_code disagrees'])
+# every byte value (all 59 table characters, the table's placeholder spelling, every non-table byte) as a literal, in a run and in a
+# repeated pattern
+for b in range(1, 256):
+    for x in (bytes([b]), bytes([b, 97]), bytes([97, b]), bytes([b]) * 5, b'ab' + bytes([b]) + b'ab' + bytes([b]) + b'ab' + bytes([b])):
+        n += 1
+        comp = compress.compress_code(x)
+        try:
+            got = ref_decode(comp)
+        except Exception as e:
+            got = repr(e)
+        if got != x: bad.append([x.hex(), 'reference decoder disagrees'])
+        area = bytes([58, 99, 58, 0, len(x) >> 8, len(x) & 255, 0, 0]) + bytes(comp) + bytes(4)
+        try:
+            got = compress.decompress_code(area)[1]
+        except Exception as e:
+            got = repr(e)
+        if got != x: bad.append([x.hex(), 'decompress_code disagrees'])
 # whole code areas through the real writer / reader pair: texts that do and do not mention _update60 (the compatibility suffix),
 # every kind of ending; an independent decoder reads the header length and the stream
 m = 0
@@ -105,7 +122,7 @@ def run(tier, seed):
     else:
         d = json.loads(r.stdout)
         chk.bounded = {'rule': 'BOUNDED stand-in for the composition of the contracts: all strings over {table char, second table '
-                               'char, newline, non-table byte} up to length %d through the real compress_code, an independent '
+                               'char, newline, non-table byte} up to length %d, and every byte value 1-255 alone / in a run / in a repeated pattern, through the real compress_code, an independent '
                                'reference decoder and the real decompress_code; plus %d whole code areas (texts with / without _update60 x 8 endings) through the real '
                                'get_bytes_from_code, an independent header+stream decoder and the real get_code_from_bytes' % (L - 1, d.get('areas', 0)),
                        'bound': L - 1, 'evaluations': d['n'], 'failures': d['n_bad']}
